@@ -20,6 +20,7 @@ type c06Cell struct {
 	Caller string `json:"caller"`         // none | 0 | 10s | 1h | -1s
 	Cancel string `json:"cancel"`         // never | before | after | deadline
 	Same   bool   `json:"same,omitempty"` // ObserveMutability on and the builder returns a value equal to the stale one
+	Chain  bool   `json:"chain,omitempty"` // the builder's WithTTL calls are nested (each on the context returned by the previous one)
 }
 
 func (c c06Cell) id() string { js, _ := json.Marshal(c); return string(js) }
@@ -37,6 +38,13 @@ func c06Cells(tier string) []Cell {
 						cells = append(cells, Cell{ID: c06Cell{Front: front, Path: path, Caller: caller, Cancel: cancel, Same: true}.id()})
 					}
 				}
+			}
+		}
+
+		// nested builder scopes: WithTTL(ctx, x, false) opens a private scope, what happens inside it stays there
+		for _, path := range []string{"cold", "bgS"} {
+			for _, caller := range []string{"none", "0", "10s", "1h", "-1s"} {
+				cells = append(cells, Cell{ID: c06Cell{Front: front, Path: path, Caller: caller, Cancel: "never", Chain: true}.id()})
 			}
 		}
 
@@ -121,6 +129,28 @@ func c06Want(caller time.Duration, hasCell bool, calls []ttlCall) time.Duration 
 	return cur
 }
 
+// c06WantChain is c06Want for nested calls: a call with updateExisting=false (or one without a cell to update)
+// opens a private scope, and everything after it happens inside that scope.
+func c06WantChain(caller time.Duration, hasCell bool, calls []ttlCall) time.Duration {
+	if !hasCell {
+		return 0
+	}
+
+	cur := caller
+
+	for _, c := range calls {
+		if !c.Upd {
+			break
+		}
+
+		if c.TTL != 0 && (cur == 0 || c.TTL < cur) {
+			cur = c.TTL
+		}
+	}
+
+	return cur
+}
+
 func c06Run(c Cell, env *Env) CellResult {
 	var cc c06Cell
 	_ = json.Unmarshal([]byte(c.ID), &cc)
@@ -185,12 +215,16 @@ func c06Run(c Cell, env *Env) CellResult {
 	for bi, calls := range behaviours {
 		calls := calls
 		want := c06Want(callerTTL, hasCell, calls)
+		if cc.Chain {
+			want = c06WantChain(callerTTL, hasCell, calls)
+		}
 
 		var h *fh
 
 		body := func() {
 			h = newFH(cfg)
 			h.ttlCalls = calls
+			h.ttlChain = cc.Chain
 			h.body()
 		}
 
@@ -199,7 +233,7 @@ func c06Run(c Cell, env *Env) CellResult {
 
 			bad := func(kind, detail string) {
 				vs = append(vs, Violation{Signature: fmt.Sprintf("C06 %s %s path=%s", front, kind, cc.Path),
-					Detail: fmt.Sprintf("%s\n  caller TTL %s, builder calls %v, cancel %s", detail, cc.Caller, calls, cc.Cancel)})
+					Detail: fmt.Sprintf("%s\n  caller TTL %s, builder calls %v (nested: %v), cancel %s", detail, cc.Caller, calls, cc.Chain, cc.Cancel)})
 			}
 
 			if r.Deadlock || r.Panic != nil {
@@ -394,7 +428,7 @@ func init() {
 	Register(&Prop{
 		ID: "C06", Title: "TTL and context travel through Failover as documented",
 		Cells: c06Cells, Run: c06Run,
-		Rule: "grid caller TTL {no cell, 0, 10s, 1h, -1s} x builder behaviour (every sequence of <=2 (quick: 73) / <=3 (thorough: 585) WithTTL(ctx,b,upd) calls, b in {0,5s,2h,-1s}, upd in {true,false}) x path {cold miss, sync update of a stale value, background update, waiter, SkipRead on a fresh entry; SkipRead on an absent / stale / too stale entry and with a failure cached for the key (uncancelled caller only)} " +
+		Rule: "grid caller TTL {no cell, 0, 10s, 1h, -1s} x builder behaviour (every sequence of <=2 (quick: 73) / <=3 (thorough: 585) WithTTL(ctx,b,upd) calls, b in {0,5s,2h,-1s}, upd in {true,false}) x path {cold miss, sync update of a stale value, background update, waiter, cold miss and background update with NESTED builder scopes, SkipRead on a fresh entry; SkipRead on an absent / stale / too stale entry and with a failure cached for the key (uncancelled caller only)} " +
 			"x caller context {never cancelled, cancelled before, cancelled after, carrying a deadline} x 3 front-ends; each case under the scheduler with all schedules (unbounded, HB cached); a recording backend wrapper notes TTL(ctx) of every Write, the builder notes Err/Done/Deadline/Value of its context",
 		Assumptions: []string{
 			"'smallest non-zero' is taken over signed durations (a negative TTL is smaller than any positive one), as the implementation's comparison does",
